@@ -321,7 +321,7 @@ var propC14 = &modelProp{
 	nt: func(e *Env) bool {
 		return e.flags["isolation-deep-shape"] > 0 && e.flags["isolation-mutated-caller-object"] > 0
 	},
-	rule: "documents with generated shapes (nil / empty / non-empty slices and maps, pointer chains *T and **T, slices of pointers incl. nil elements, maps of slices of pointers, interface{} holding nil/scalars/maps/slices, empty slices with spare capacity, arrays of scalars, nested structs by value and pointer), cache and async on and off. After every accepted InsertOrUpdate the caller's object is mutated through reflection at every reachable location; after every op each stored object is read twice (address sets of all reachable pointers/slices/maps must be disjoint), the first copy is mutated everywhere, a third read must equal the canonical JSON recorded at store time and share nothing; the same for objects returned by All and Search.Collect, also when they are the very first reads of a freshly opened (cold) handle; all read paths are compared with the model after every op; with the cache on a second handle reads every object from its file and the cached read must equal it. TestC14Deep repeats the store/mutate/read protocol on a second type whose containers are nested directly inside containers ([][]int, []map, map of maps, map of pointers incl. nil entries, *[]T, []*[]T, [][][]string, zero values held by interface{} slots, arrays of pointers / slices / maps / structs with pointers) with cache and async on and off, and finally reads every object through a cold second handle (what reached the file must be what was stored, not what the caller turned it into). TestC14Twins stores reference-free and reference-holding struct types that share one type name (props.Twin0..2, function-local declarations, one database each) in a generated order and runs the same protocol on each: nothing the library remembers per type name may leak from one type to the other. Non-trivial: a stored shape with a non-nil pointer or non-empty container at depth >= 2 and >= 1 mutated location in a caller object. Distinct by program hash.",
+	rule: "documents with generated shapes (nil / empty / non-empty slices and maps, pointer chains *T and **T, slices of pointers incl. nil elements, maps of slices of pointers, interface{} holding nil/scalars/maps/slices, empty slices with spare capacity, one pointer target referenced from several places, arrays of scalars, nested structs by value and pointer), cache and async on and off. After every accepted InsertOrUpdate the caller's object is mutated through reflection at every reachable location; after every op each stored object is read twice (address sets of all reachable pointers/slices/maps must be disjoint), the first copy is mutated everywhere, a third read must equal the canonical JSON recorded at store time and share nothing; the same for objects returned by All and Search.Collect, also when they are the very first reads of a freshly opened (cold) handle; all read paths are compared with the model after every op; with the cache on a second handle reads every object from its file and the cached read must equal it. TestC14Deep repeats the store/mutate/read protocol on a second type whose containers are nested directly inside containers ([][]int, []map, map of maps, map of pointers incl. nil entries, *[]T, []*[]T, [][][]string, zero values held by interface{} slots, arrays of pointers / slices / maps / structs with pointers) with cache and async on and off, and finally reads every object through a cold second handle (what reached the file must be what was stored, not what the caller turned it into). TestC14Twins stores reference-free and reference-holding struct types that share one type name (props.Twin0..2, function-local declarations, one database each) in a generated order and runs the same protocol on each: nothing the library remembers per type name may leak from one type to the other. Non-trivial: a stored shape with a non-nil pointer or non-empty container at depth >= 2 and >= 1 mutated location in a caller object. Distinct by program hash.",
 	after: func(e *Env) {
 		// cached read == round trip through the file (second handle, cold cache)
 		if e.cfg.Async != nil {
@@ -384,6 +384,23 @@ func init() {
 			if respare(reflect.ValueOf(arg), 0) > 0 {
 				e.flag("empty-slice-with-spare-capacity-stored")
 			}
+			// equal pointer targets become ONE target referenced several times (same JSON)
+			var first *Inner
+			for i, p := range arg.SlP {
+				if p == nil {
+					continue
+				}
+				if first == nil {
+					first = p
+				} else if *p == *first {
+					arg.SlP[i] = first
+					e.flag("one-pointer-target-referenced-twice")
+				}
+			}
+			if first != nil && arg.Pt != nil && *arg.Pt == *first {
+				arg.Pt = first
+				e.flag("one-pointer-target-referenced-twice")
+			}
 		}
 		// mutate the caller's object right after it was stored
 		e.onStored = func(arg *Doc) {
@@ -440,7 +457,7 @@ func TestC12(t *testing.T) {
 		W:          map[string]int{"insert": 8, "update": 4, "delete": 3, "resurrect": 1, "many": 2, "bulk": 1, "query": 10, "searchDelete": 1, "reopen": 2, "deleteAll": 1, "upsertUUID": 1},
 		AllowCache: true, AllowCompress: true, AllowAsync: true, AllowLower: true,
 		MaxIndexed: 4, MaxUnique: 2, CasePaths: 1,
-		TinyBias: 55, BigBias: 12, HookBias: 8, RichShape: 10, MaxLeaves: 2, BadQueryPct: 30,
+		TinyBias: 55, BigBias: 12, HookBias: 8, RichShape: 10, MaxLeaves: 2, BadQueryPct: 30, NaNProbePct: 6,
 	}
 	rapid.Check(t, func(rt *rapid.T) {
 		g := NewG(rt, prof)
